@@ -11,7 +11,7 @@ func init() {
 	}
 
 	return merged`,
-			New: `	return merged`,
+			New:    `	return merged`,
 			Expect: "merge-cover:style.mergeRunProperties:Highlight",
 			Why:    "an attribute missing from the hand-written merge list is silently not inherited"},
 		{Name: "merge-run-parent-colour-wins", Kind: "breaking", Prop: "C14", File: fSty,
@@ -90,7 +90,7 @@ func init() {
 					return err
 				}
 			case "ind":`,
-			New: `			case "ind":`,
+			New:    `			case "ind":`,
 			Expect: "schema-read:ParagraphProperties.Justification",
 			Why:    "a reader case removed: alignment silently lost on open"},
 		{Name: "reader-ind-right-dropped", Kind: "breaking", Prop: "C03", File: fDoc,
@@ -195,7 +195,7 @@ func init() {
 	doc.updateNextImageID()
 
 	return doc, nil`,
-			New: `	return doc, nil`,
+			New:    `	return doc, nil`,
 			Expect: "fresh-dep:media*",
 			Why:    "new images overwrite word/media/image0.* of the opened package"},
 		{Name: "paragraph-reader-containers-as-if", Kind: "benign", Prop: "C04", File: fDoc,
@@ -234,7 +234,7 @@ func init() {
 		t.Grid = &TableGrid{}
 	}
 	newGridCol := TableGridCol{`,
-			New: `	newGridCol := TableGridCol{`,
+			New:    `	newGridCol := TableGridCol{`,
 			Expect: "nil-guard:(*document.Table).InsertColumn:Table.Grid",
 			Why:    "historical defect: tables read without w:tblGrid have a nil Grid"},
 		{Name: "insert-column-grid-guard-new", Kind: "benign", Prop: "C06,C09", File: fTbl,
